@@ -68,12 +68,13 @@ class Model:
         self.helpers_inlined = helpers.inline_new_helpers(self.modules, exits)
         for t_ in self.modules.values():
             helpers.unstar_literals(t_)
-        ifs_table, neg_guards, param_rebinds = helpers.load_ifs(), helpers.load_neg_guards(), helpers.load_param_rebinds()
+        ifs_table, neg_guards, param_rebinds, loop_ifelse = helpers.load_ifs(), helpers.load_neg_guards(), helpers.load_param_rebinds(), helpers.load_loop_ifelse()
         self.hoisted_inlined, self.one_armed_merged = [], 0
         for name in list(self.modules):
             if True:
                 if True:
                     pass
+                helpers.split_merged_tail(self.modules[name], loop_ifelse.get(name, set()))        # a tail shared by both branches of an if/else in a loop
                 alpha.split_tuple_assigns(self.modules[name])                         # one binding per statement
                 for _ in range(4):
                     if not alpha.unnest_else_after_leave(self.modules[name]):         # else after a branch that always leaves = the rest of the block
